@@ -157,7 +157,7 @@ type c30DLCase struct {
 
 var (
 	c30DLContent = []string{"exact", "bitflip", "truncated", "truncated-by-1", "extended", "extended-by-1", "empty", "error", "midstream-error", "other"}
-	c30DLSha     = []string{"of-described", "of-described", "of-described", "of-described", "of-stored", "of-stored", "of-stored", "upper", "padded", "wrong", "short", "nonhex", "empty"}
+	c30DLSha     = []string{"of-described", "of-described", "of-described", "of-described", "of-stored", "of-stored", "of-stored", "upper", "padded", "wrong", "tail-wrong", "head-wrong", "short", "nonhex", "empty"}
 	c30DLSize    = []string{"of-described", "of-described", "of-described", "of-described", "of-stored", "of-stored", "of-stored", "plus1", "minus1", "zero", "negative", "huge", "plus-many", "maxint", "maxint-1"}
 	c30DLAlg     = []string{"", "", "", "", "sha256", "sha256", "SHA256", " sha256 ", "md5", "none"}
 	c30DLMode    = []string{"", "", "stream", "stream", "stream", "stream", "STREAM", " stream ", "presign", "bogus"}
@@ -211,6 +211,14 @@ func c30RunDownload(st *vfkit.Stats, c *c30DLCase, honourKnown bool) (string, bo
 		sha = "  " + c30Sha(blob) + "\t"
 	case "wrong":
 		sha = c30Sha(append([]byte("x"), blob...))
+	case "tail-wrong": // only the last hex digit differs from the stored object's digest
+		h := []byte(c30Sha(stored))
+		h[63] = "0123456789abcdef"[(strings.IndexByte("0123456789abcdef", h[63])+1)%16]
+		sha = string(h)
+	case "head-wrong":
+		h := []byte(c30Sha(stored))
+		h[0] = "0123456789abcdef"[(strings.IndexByte("0123456789abcdef", h[0])+1)%16]
+		sha = string(h)
 	case "short":
 		sha = c30Sha(blob)[:63]
 	case "nonhex":
